@@ -33,6 +33,9 @@ class Prop(common.PropertyCheck):
                    'req': rng.choice(['none', 'scalar', 'subset', 'subset', 'all_reordered', 'uncovered']),
                    'scform': rng.choice(['names', 'pos', 'mixed', 'default']), 'bad': rng.choice([None] * 9 + ['len']),
                    'neg': rng.random() < 0.25}
+        # samples of more than 2**20 events, not a multiple of it (block-wise implementations)
+        for _ in range(self.budget(1, 6)):
+            yield {'k': 'big', 'n': (1 << 20) * rng.choice([1, 1, 2]) + rng.randrange(1, 5000), 'cont': rng.choice(['array', 'sample']), 'seed': rng.randrange(1 << 30)}
         for _ in range(self.budget(12, 120)):
             yield {'k': 'partial', 'seed': rng.randrange(1 << 30), 'layout': rng.choice(['same', 'swapped', 'dropped', 'reversed'])}
 
@@ -85,7 +88,33 @@ class Prop(common.PropertyCheck):
         ncur = nc + (1 if case['bad'] == 'len' else 0)
         return d, names, cols, sc_channels, channels, want, ncur
 
+    def run_big(self, case):
+        r = np.random.RandomState(case['seed'] % (1 << 31))
+        n = case['n']
+        a = r.randint(0, 1024, size=(n, 3)).astype(np.float64)
+        d = a
+        if case['cont'] == 'sample':
+            import random
+            spec = samples.spec_rich(random.Random(case['seed']), N=2, D=3, datatype='I')
+            s, _ = samples.load(spec, name='c06big.fcs')
+            d = s[[0] * n]                       # a sample of n events with the loaded sample's metadata
+            d[:] = a
+        try:
+            t = FlowCal.transform.to_mef(d, [2, 0], [curve(0), curve(1)], [2, 0])
+        except Exception as e:
+            return {'big': 'raised %s %s' % (type(e).__name__, str(e)[:80])}
+        t = np.asarray(t, dtype=float)
+        want = a.copy()
+        want[:, 2] = curve(0)(a[:, 2]); want[:, 0] = curve(1)(a[:, 0])
+        bad = np.argwhere(t != want)
+        if len(bad):
+            return {'big': '%d of %d events of a requested channel were not converted with their own curve (first: event %d column %d is %r, expected %r)' % (
+                len(set(bad[:, 0].tolist())), n, bad[0][0], bad[0][1], float(t[bad[0][0], bad[0][1]]), float(want[bad[0][0], bad[0][1]]))}
+        return {'big': None}
+
     def run_impl(self, case):
+        if case['k'] == 'big':
+            return self.run_big(case)
         if case['k'] == 'partial':
             return self.run_partial(case)
         d, names, cols, sc_channels, channels, want, ncur = self.build(case)
@@ -185,6 +214,8 @@ class Prop(common.PropertyCheck):
         fcsgen.cleanup()
 
     def oracle(self, case, impl):
+        if case['k'] == 'big':
+            return None if impl['big'] is None else '%s sample of %d events: %s' % (case['cont'], case['n'], impl['big'])
         if case['k'] == 'partial':
             if 'err' in impl:
                 return impl['err']
@@ -253,6 +284,8 @@ class Prop(common.PropertyCheck):
         return None
 
     def nontrivial_key(self, case, impl):
+        if case['k'] == 'big':
+            return ('big', case['cont'], case['n'] >> 20)
         if case['k'] == 'partial':
             return ('partial', case['layout'], tuple(impl.get('mef_channels', [])))
         return (case['cont'], case['nc'], case['req'], case['scform'], case['bad'], 'err' if 'err' in impl else 'ok',
